@@ -381,6 +381,17 @@ def r09c(model, ctx):
             if unparse(lp.iter) == "sorted(self.files)" and isinstance(lp.target, ast.Name):
                 out.append((lp, {lp.target.id: "filename"}))
                 continue
+            # the items in the order of their (unique) keys: sorted(self.files.items()) with or without a key function that
+            # selects the name
+            it = unparse(lp.iter)
+            if isinstance(lp.target, ast.Tuple) and len(lp.target.elts) == 2 and all(isinstance(e_, ast.Name) for e_ in lp.target.elts) and \
+                    (it == "sorted(self.files.items())" or
+                     (it.startswith("sorted(self.files.items(), key=") and isinstance(lp.iter.keywords[0].value, ast.Lambda) and
+                      len(lp.iter.keywords[0].value.args.args) == 1 and
+                      unparse(lp.iter.keywords[0].value.body) == f"{lp.iter.keywords[0].value.args.args[0].arg}[0]") or
+                     it in ("sorted(self.files.items(), key=operator.itemgetter(0))", "sorted(self.files.items(), key=itemgetter(0))")):
+                out.append((lp, {lp.target.elts[0].id: "filename", lp.target.elts[1].id: "self.files[filename]"}))
+                continue
             if isinstance(lp.iter, ast.Call) and isinstance(lp.iter.func, ast.Attribute) and unparse(lp.iter.func.value) == "self" \
                     and not lp.iter.args:
                 g = model.func(f"{RUN}::BuildPlan.{lp.iter.func.attr}", optional=True)
